@@ -53,7 +53,7 @@ func (r *ReplayerImpl) Replay(transactionGroup []byte) error {
 			return errors.Wrap(err, "failed to convert WTSet to CSM")
 		}
 
-		err = r.writeFunc(csm, wtsets[0].RecordType == io.VARIABLE)
+		err = r.writeFunc(csm, wtSet.RecordType == io.VARIABLE)
 		if err != nil {
 			return errors.Wrap(err, fmt.Sprintf("failed to WriteCSM. csm:%v", csm))
 		}
